@@ -189,7 +189,7 @@ PROPS = {
             "str length + 4 <= usize::MAX (every Rust str has len <= isize::MAX)",
             "try_find_char is opaque (R16): it only builds the error message text",
         ],
-        "not_decided": ["token extent of numbers inside the winnow parser (primitive::pretty_decimal)"],
+        "not_decided": ["how the winnow combinators apply the token predicate (take_while / opt / try_map; the predicate itself and the chain are a slice and an anchor)"],
     },
     "C08": {
         "level": "proof",
